@@ -22,8 +22,10 @@ Record RelM (s : state) (ms : mstate) : Prop := {
   r_runret : m_runret ms = true -> run s = RDone
 }.
 
-Lemma RelM_init n hon f5 f6 f12 : RelM (init n hon f5 f6 f12) minit.
+Lemma RelM_init_u n u hon f5 f6 f12 f16 : RelM (init_u n u hon f5 f6 f12 f16) minit.
 Proof. constructor; simpl; intros; try reflexivity; discriminate. Qed.
+Lemma RelM_init n hon f5 f6 f12 : RelM (init n hon f5 f6 f12) minit.
+Proof. apply RelM_init_u. Qed.
 
 Lemma mem_cons_upd (f : mpc -> bool) (g : mid -> mpc) l m v :
   (forall x, mem x l = f (g x)) -> f v = true -> forall x, mem x (m :: l) = f (upd g m v x).
